@@ -19,6 +19,8 @@ CapQuick    == CapOf(1, 1, 1, 1, 1, 2, 1, 1, 1)
 \* quick tier: (A) stake operations, transfers, rewards, slash; (B) allowances and transferFrom
 CapQuickA   == CapOf(1, 1, 1, 1, 0, 2, 0, 1, 1)
 CapQuickB   == CapOf(0, 0, 0, 1, 1, 1, 2, 1, 0)
+\* model checking only (no replay)
+CapMC       == CapOf(1, 1, 1, 1, 1, 2, 1, 2, 1)
 CapThoroughA == CapOf(1, 1, 1, 1, 0, 2, 0, 2, 1)
 CapThoroughB == CapOf(0, 0, 0, 1, 2, 1, 2, 1, 0)
 =============================================================================
